@@ -15,7 +15,7 @@
        coherence; loads may read any coherence-allowed message): trip line (release/acquire), Latch fast path,
        and the whole left-right protocol, each with machine-checked refutations for the weakened orders. *)
 From GV Require Lockset TraceActs.
-From GV Require LatchProofs LatchViews LRProofs LRViews DeferredProofs TriggerMO.
+From GV Require LatchProofs LatchViews LRProofs LRViews DeferredProofs TriggerMO WrapperTrace CowProofs CowMO Properties_C04.
 From GV Require Properties_C19 Properties_C18 Properties_C17 Properties_C16.
 
 (* ================= layer 1: mutex-protected data ================= *)
@@ -24,6 +24,16 @@ Theorem lockset_race_free : ltac:(let T := type of Lockset.lockset_race_free in 
 Proof. exact Lockset.lockset_race_free. Qed.
 Theorem lockset_race_free_init : ltac:(let T := type of Lockset.lockset_race_free_init in exact T).
 Proof. exact Lockset.lockset_race_free_init. Qed.
+(* guarded / guarded_opt / shared_guarded(_opt) / ordered_guarded / atomic_guarded: the OBSERVABLE trace of every
+   run (the very lines the correspondence check compares with the implementation), read as lock / unlock /
+   shared lock / access actions, obeys the lock discipline - every payload window edge happens while the acting
+   thread holds the wrapper's mutex, exclusively for writes - for every flavour, mutex kind, payload kind, throw
+   plan, program and schedule (under `safe`: locking enabled and no client dereferenced a handle that owns
+   nothing); hence no access is a happens-before race *)
+Theorem wr_trace_discipline : ltac:(let T := type of WrapperTrace.wr_trace_discipline in exact T).
+Proof. exact WrapperTrace.wr_trace_discipline. Qed.
+Theorem wr_hb_race_free : ltac:(let T := type of WrapperTrace.wr_hb_race_free in exact T).
+Proof. exact WrapperTrace.wr_hb_race_free. Qed.
 (* DelayedObjects: the four maps change only inside the owner's critical section; one thread inside at a time *)
 Theorem do_atomic_sections : ltac:(let T := type of Properties_C18.do_atomic_sections in exact T).
 Proof. exact Properties_C18.do_atomic_sections. Qed.
@@ -52,6 +62,12 @@ Theorem def_windows_disjoint : ltac:(let T := type of DeferredProofs.def_windows
 Proof. exact DeferredProofs.def_windows_disjoint. Qed.
 Theorem def_all_atomics_seq_cst : ltac:(let T := type of DeferredProofs.def_all_atomics_seq_cst in exact T).
 Proof. exact DeferredProofs.def_all_atomics_seq_cst. Qed.
+(* cow_guarded: the invisible shared_ptr accesses to the two copies of the inner left-right never overlap
+   (reader window vs. writer window), and every inner atomic is seq_cst *)
+Theorem cow_inner_exclusion : ltac:(let T := type of Properties_C04.cow_inner_exclusion in exact T).
+Proof. exact Properties_C04.cow_inner_exclusion. Qed.
+Theorem cow_all_atomics_seq_cst : ltac:(let T := type of CowMO.cow_all_atomics_seq_cst in exact T).
+Proof. exact CowMO.cow_all_atomics_seq_cst. Qed.
 (* Latch: the counter is the only atomic, always seq_cst; TriggerVariable: all seq_cst but the acquire load
    of reset()'s retry loop, through which nothing is published *)
 Theorem latch_all_atomics_seq_cst : ltac:(let T := type of LatchProofs.all_atomics_seq_cst in exact T).
